@@ -35,6 +35,11 @@ def gen_case(rng):
                     ops[k] = (o[0], 1000 + o[1])
                 if o[0] == "ret" and rng.random() < 0.15 and k + 1 < len(ops) and ops[k + 1][0] in ("n", "al") and K.CLONE_OK[t["mid"]]:
                     ops[k] = ("ret", 1000 + o[1])
+    # user panics inside a matcher: bit 16 of the mask, argument 7
+    for t in c["terms"]:
+        for p in ([t["pat"]] if t["kind"] == "call" else t["pats"]):
+            if p["matcher"] is not None and rng.random() < 0.08:
+                p["matcher"] |= (1 << 16)
     evs = []
     for e in c["events"]:
         if e["base"][0] == "call":
